@@ -2379,6 +2379,140 @@ func unrenderableDetailProbe(c *Ctx) {
 	}
 }
 
+// longErrorProbe: an error whose message is long - a stack trace, an upstream's HTML page -
+// arrives whole, after messages too (where gRPC-Web carries it in the trailer block of the body),
+// and the raw Grpc-Message a gRPC peer reads decodes to it (round 10, C02-mn, C18-mn).
+func longErrorProbe(c *Ctx) {
+	for _, proto := range []string{"connect", "grpc", "grpcweb"} {
+		for _, n := range []int{9000, 60000} {
+			for _, after := range []bool{false, true} {
+				msg := strings.Repeat("stack frame %d: ünïcode\n", n/24)
+				h := connect.NewServerStreamHandler("/s/m", func(ctx context.Context, r *connect.Request[[]byte], s *connect.ServerStream[[]byte]) error {
+					if after {
+						_ = s.Send(&[]byte{1})
+					}
+					return connect.NewError(connect.CodeInternal, errors.New(msg))
+				}, connect.WithCodec(rawCodec{"raw"}))
+				desc := fmt.Sprintf("%s server-stream handler (message sent first=%v) fails with a %d-byte error message", proto, after, len(msg))
+				c.Begin(desc)
+				c.Count("long-error-probe")
+				got := safely(func() string {
+					v := callClient(proto, "server", &inprocClient{h: h}, nil, [][]byte{{1}})
+					var ce *connect.Error
+					if !errors.As(v.err, &ce) {
+						return fmt.Sprintf("no coded error: %v", v.err)
+					}
+					raw := "n/a"
+					if proto != "connect" {
+						raw = "decodes"
+						if dec, err := percentDecodeStrict(ce.Meta().Get("Grpc-Message")); err != nil || dec != msg {
+							raw = fmt.Sprintf("Grpc-Message does not decode to the message (%d wire bytes, err=%v)", len(ce.Meta().Get("Grpc-Message")), err)
+						}
+					}
+					return fmt.Sprintf("code=%s message-intact=%v grpc-message=%s", ce.Code(), ce.Message() == msg, raw)
+				})
+				want := "code=internal message-intact=true grpc-message=decodes"
+				if proto == "connect" {
+					want = "code=internal message-intact=true grpc-message=n/a"
+				}
+				if got != want {
+					key := "rt-error-long-message"
+					if strings.Contains(got, "message-intact=true") {
+						key = "wire-grpc-message-long"
+					}
+					c.Fail(key, desc, got, "a long error message arrives whole, and the Grpc-Message trailer decodes to it: "+want)
+				}
+			}
+		}
+	}
+}
+
+// percentDecodeStrict is the gRPC percent-decoding of the protocol document, restated: every %
+// must be followed by two hex digits.
+func percentDecodeStrict(s string) (string, error) {
+	var out []byte
+	for i := 0; i < len(s); i++ {
+		if s[i] != '%' {
+			out = append(out, s[i])
+			continue
+		}
+		if i+2 >= len(s) {
+			return "", errors.New("truncated escape")
+		}
+		v, err := strconv.ParseUint(s[i+1:i+3], 16, 8)
+		if err != nil {
+			return "", err
+		}
+		out = append(out, byte(v))
+		i += 2
+	}
+	return string(out), nil
+}
+
+// errorContentTypeProbe: a unary Connect error is JSON - one Content-Type, application/json -
+// also when the error's metadata carries a Content-Type of its own (a gateway that hands an
+// upstream's error on as it is) (round 10, C05-mm).
+func errorContentTypeProbe(c *Ctx) {
+	for _, metaCT := range []string{"application/grpc+proto", "text/html"} {
+		h := connect.NewUnaryHandler("/s/m", func(ctx context.Context, r *connect.Request[[]byte]) (*connect.Response[[]byte], error) {
+			e := connect.NewError(connect.CodeUnavailable, errors.New("upstream down"))
+			e.Meta().Set("Content-Type", metaCT)
+			e.Meta().Set("X-Up", "u1")
+			return nil, e
+		}, connect.WithCodec(rawCodec{"raw"}))
+		req := httptest.NewRequest(http.MethodPost, "/s/m", strings.NewReader("x"))
+		req.Header.Set("Content-Type", "application/raw")
+		rec := httptest.NewRecorder()
+		h.ServeHTTP(rec, req)
+		cts := rec.Result().Header.Values("Content-Type")
+		desc := "unary Connect handler returns unavailable whose metadata carries Content-Type: " + metaCT
+		c.Begin(desc)
+		c.Count("error-content-type-probe")
+		got := fmt.Sprintf("status=%d content-types=%q x-up=%q", rec.Code, cts, rec.Result().Header.Values("X-Up"))
+		if want := `status=503 content-types=["application/json"] x-up=["u1"]`; got != want {
+			c.Fail("wire-error-content-type", desc, got, "a unary Connect error is JSON under its HTTP status with exactly one Content-Type: "+want)
+		}
+	}
+}
+
+// earlyStatusProbe: the peer answers a large upload with a non-200 status and stops reading.
+// The call fails with the code of that status - the failing Send is not the call's outcome
+// (round 10, C06-mn).
+func earlyStatusProbe(c *Ctx) {
+	for _, proto := range []string{"connect", "grpc", "grpcweb"} {
+		for _, kind := range []string{"unary", "server"} {
+			desc := fmt.Sprintf("%s %s call uploading 8 MiB to a peer that answers 401 after the first 64 KiB and stops reading", proto, kind)
+			c.Begin(desc)
+			c.Count("early-status-probe")
+			got := safely(func() string {
+				hc := &earlyStatusClient{status: 401, after: 64 << 10}
+				big := bytes.Repeat([]byte{9}, 8<<20)
+				v := callClient2(proto, kind, hc, append(protoOpts(proto), connect.WithCodec(rawCodec{"raw"})), big)
+				if v.err == nil {
+					return "success"
+				}
+				return codeOrOKp(v.err)
+			})
+			if got != "unauthenticated" {
+				c.Fail("client-early-status", desc, got, "a non-200 response that carries no protocol-level error takes its code from the HTTP status: unauthenticated")
+			}
+		}
+	}
+}
+
+// earlyStatusClient reads `after` bytes of the request body, answers with a bare status and
+// never reads on.
+type earlyStatusClient struct {
+	status int
+	after  int
+}
+
+func (e *earlyStatusClient) Do(req *http.Request) (*http.Response, error) {
+	_, _ = io.CopyN(io.Discard, req.Body, int64(e.after))
+	return &http.Response{StatusCode: e.status, Status: strconv.Itoa(e.status) + " " + http.StatusText(e.status), Proto: "HTTP/1.1", ProtoMajor: 1, ProtoMinor: 1,
+		Header: http.Header{"Content-Type": {"text/plain"}}, Body: io.NopCloser(strings.NewReader("no")), Request: req}, nil
+}
+
 func extraProbes(c *Ctx) {
 	metadataProbes(c)
 	failingCompressorProbe(c, "wire-error-mislabelled")
@@ -2405,6 +2539,9 @@ func extraProbes(c *Ctx) {
 	emptyWebTrailerProbe(c)
 	paddedBinaryProbe(c)
 	unrenderableDetailProbe(c)
+	longErrorProbe(c)
+	errorContentTypeProbe(c)
+	earlyStatusProbe(c)
 	// (1) every error a client API returns can be inspected as a Connect error — including the one
 	// from closing a response whose body fails while being drained
 	for _, proto := range []string{"connect", "grpc", "grpcweb"} {
